@@ -389,12 +389,23 @@ def run_check(mod, tier: str, seed: int, args) -> int:
         min_budget = budget.get("minimise_s", 40)
         for cls, items in list(new_groups.items())[: budget.get("max_report", 4)]:
             items.sort(key=lambda t: (len(t[1].get("deviations", [])), t[1].get("n_events", 0)))
-            desc, res, v = items[0]
-            mdesc, devs, mres, mv, log = minimise(sess, desc, res, v, min_budget)
-            path = write_replay(prop, mdesc, devs, mres, mv, log)
-            ok, _ = replay_file(sess, path, show=False)
+            # a replay file is only reported once it reproduced in a fresh interpreter; a few runs are not bit-reproducible
+            # (DESIGN 15.6: Hypothesis shrinking a persistent stateful error), so up to three witnesses of the class are tried
+            ok = False
+            tried = []
+            for desc, res, v in items[:3]:
+                mdesc, devs, mres, mv, log = minimise(sess, desc, res, v, min_budget if not tried else min(min_budget, 15))
+                path = write_replay(prop, mdesc, devs, mres, mv, log)
+                ok, _ = replay_file(sess, path, show=False)
+                if ok:
+                    break
+                tried.append(path)
+                try:
+                    os.remove(path)
+                except OSError:
+                    pass
             if not ok:
-                harness_errors.append(f"replay of {path} did not reproduce {v['rule']} in a fresh interpreter")
+                harness_errors.append(f"replay of {tried} did not reproduce {v['rule']} in a fresh interpreter")
                 continue
             replay_paths.append(path)
             print(f"  {mv['rule']} {json.dumps(mv.get('signature'), sort_keys=True)} :: {mv['message']} [{len(items)} run(s)]")
